@@ -1,11 +1,15 @@
 """C32 -- Message.text round-trips for every content type.
 
-Monitor (direct, at the public boundary): build a request/response with a generated Content-Type (or none),
-``m.text = s`` must not raise, and the strict getter ``m.text`` must return exactly ``s`` (and not raise).
-One or two assignments are made on the same message so that a charset written by the first fallback is the
-starting point of the second.  The oracle is the identity on ``s`` -- nothing of mitmproxy is re-used.  A pre-check
-with the stdlib only (``s.encode(cs).decode(cs) == s``) removes charsets whose Python codec is itself not
-bijective on ``s`` from the domain (counted, never alarmed).
+Monitor (direct, at the public boundary): a history on ONE request/response with a generated Content-Type (or
+none): 1-6 times ``m.text = s`` must not raise and the strict getter ``m.text`` must then return exactly ``s`` (and
+not raise).  Between assignments the message may be changed behind the setter's back -- the body replaced through
+``.content`` / ``.raw_content`` with bytes in a codec that need not match the declared charset (a mislabelled body from
+the wire), the Content-Type replaced or removed -- and the assigned text is either new, a text assigned earlier, the
+lenient read ``get_text(strict=False)`` of the current body, or its strict read.  So a setter that consults the
+previous body / header state (caching, "unchanged" short cuts) is exercised, not only the stateless path.
+The oracle is the identity on ``s`` -- nothing of mitmproxy is re-used.  A pre-check with the stdlib only
+(``s.encode(cs).decode(cs) == s``) removes charsets whose Python codec is itself not bijective on ``s`` from the
+domain (counted, never alarmed).
 
 vf/ref/c32_text.py holds the input predicates that map a failed round trip to a mechanism.
 """
@@ -18,16 +22,26 @@ BUDGET = {"quick": (9000, 14), "thorough": (400_000, 180)}
 WORKERS = {"quick": 2, "thorough": 16}
 ENGINE = "direct"
 TECHNIQUE = "round-trip monitoring of set_text/get_text over generated strings x content types"
-REQUIRED = ["set_text.no_exception", "get_text.roundtrip"]
+REQUIRED = [
+    "set_text.no_exception",
+    "get_text.roundtrip",
+    "history.body_not_strictly_decodable_before_assign",
+    "history.lenient_readback_assigned",
+    "history.same_text_reassigned",
+    "history.header_changed",
+]
 RULE = (
-    "case = (string, Content-Type, optional Content-Encoding, request|response, 1-2 assignments); strings are built from "
+    "case = a history on ONE message (request|response, optional Content-Encoding): 1-6 text assignments, each optionally "
+    "preceded by a change behind the setter's back (body replaced via .content/.raw_content with bytes in a codec that need "
+    "not match the declared charset, Content-Type replaced/removed); the assigned text is new, a text assigned before, the "
+    "lenient read get_text(strict=False) of the current body, or the strict read; strings are built from "
     "ASCII, Latin-1, BMP, astral, NUL, U+FEFF/U+FFFE, BOM-looking Latin-1 prefixes, surrogate-escaped bytes and in-body "
     "declarations (<meta charset>, http-equiv, <?xml encoding?>, @charset) naming a random charset; content types cover "
     "none/empty/unparsable, text/plain, html, xhtml, xml, svg, css, json, javascript, octet-stream with no charset or a "
     "charset from ~45 names (latin-1, utf-8, utf-16/32 +le/be, gb2312/gbk/gb18030, ascii, cp1252, CJK and Cyrillic sets, "
     "utf-7, utf-8-sig, quoted, bogus, empty, content-coding and binary-codec names) in several parameter spellings. "
-    "distinct = (media class, charset, parameter spelling, string feature set of the first text, #assignments, content-encoding flag); "
-    "non-trivial = the string has a non-ASCII character, a declaration or a BOM-like prefix, or a charset parameter is present"
+    "distinct = (media class, charset, parameter spelling, string feature set of the first text, sequence of step kinds, content-encoding flag); "
+    "non-trivial = the string has a non-ASCII character, a declaration or a BOM-like prefix, or a charset parameter is present, or the history has more than one step"
 )
 ASSUMPTIONS = [
     "domain of strings: Unicode scalar values plus U+DC80..U+DCFF (surrogate-escaped bytes); other lone surrogates are not generated",
@@ -170,29 +184,120 @@ def in_domain(ct, s):
         return False
 
 
+BODY_CODECS = ["utf-8", "utf-8", "utf-8", "latin-1", "utf-16", "utf-16le", "gb18030", "cp1252", "shift_jis", "koi8-r"]
+
+
+def gen_body(r):
+    """Bytes for .content / .raw_content that need not match the declared charset (a mislabelled body from the wire)."""
+    if r.random() < 0.15:
+        return r.randbytes(r.randint(1, 24)), "random"
+    s, _ = gen_string(r)
+    if not s:
+        s = r.choice(["é", "中文", "héllo wörld", "я"])
+    codec = r.choice(BODY_CODECS)
+    try:
+        return s.encode(codec, "surrogateescape" if codec == "utf-8" else "replace"), codec
+    except Exception:
+        return s.encode("utf-8", "surrogatepass"), "utf-8"
+
+
+def perturb(ctx, r, m, log):
+    """Between two assignments: replace the body behind the setter's back and / or change the Content-Type."""
+    k = r.choice(["content", "raw", "header", "header", "header+content", "header+raw"])
+    if "header" in k:
+        ct, _, _, _ = gen_content_type(r)
+        if ct is None:
+            m.headers.pop("content-type", None)
+        else:
+            m.headers["content-type"] = ct
+        ctx.count("history.header_changed")
+        log.append(("content-type", ct))
+    if "content" in k or "raw" in k:
+        b, codec = gen_body(r)
+        if "raw" in k or "content-encoding" not in m.headers:
+            m.raw_content = b
+            log.append(("raw_content", codec, b[:40]))
+        else:
+            try:
+                m.content = b
+                log.append(("content", codec, b[:40]))
+            except Exception:  # C31's business (str-only codec named as Content-Encoding); not generated here
+                m.raw_content = b
+                log.append(("raw_content", codec, b[:40]))
+        ctx.count("history.body_replaced")
+    return k
+
+
+def choose_text(ctx, r, m, prev):
+    """-> (text, source, feature tuple). Sources: new | same (a text assigned before) | lenient (get_text(strict=False)
+    of the current body) | strict (the current strict read)."""
+    k = r.random()
+    if prev and k < 0.22:
+        ctx.count("history.same_text_reassigned")
+        s = r.choice(prev)
+        return s, "same", ("same",)
+    if k < 0.50 and m.raw_content:
+        try:
+            s = m.get_text(strict=False)
+        except Exception:
+            s = None
+        if isinstance(s, str):
+            ctx.count("history.lenient_readback_assigned")
+            return s, "lenient", ("lenient", "surrogate") if ref.has_surrogates(s) else ("lenient",)
+    if k < 0.58 and m.raw_content:
+        try:
+            s = m.text
+        except Exception:
+            s = None
+        if isinstance(s, str):
+            ctx.count("history.strict_readback_assigned")
+            return s, "strict", ("strict",)
+    s, feats = gen_string(r)
+    return s, "new", feats
+
+
 def run(ctx):
     for i in ctx.cases():
         r = ctx.rng
         ct, mclass, cs, sp = gen_content_type(r)
         ce = r.choices([None, "gzip", "br", "x-bogus"], [82, 10, 4, 4])[0]
         m, kind = mk_msg(r, ct, ce)
-        n_assign = r.choice([1, 1, 1, 2])
+        n_assign = r.choice([1, 1, 2, 2, 3, 4, 6])
         feats_all = []
+        sources = []
+        prev = []
+        log = []
         sample = None
         for n in range(n_assign):
-            s, feats = gen_string(r)
+            # ---- history: the message may already hold a (mislabelled) body, and headers may change between assignments
+            if r.random() < (0.6 if n else 0.45):
+                sources.append(perturb(ctx, r, m, log))
+            if m.raw_content:
+                try:
+                    m.text
+                except ValueError:
+                    ctx.count("history.body_not_strictly_decodable_before_assign")
+                except Exception:
+                    pass
+            s, src, feats = choose_text(ctx, r, m, prev)
+            sources.append(src)
             feats_all.append(feats)
             ct_before = m.headers.get("content-type")
             if not in_domain(ct_before, s):
                 ctx.count("codec_not_bijective_skipped")
                 break
-            wit = {"content_type": ct_before, "text": s[:200], "text_len": len(s), "content_encoding": ce, "message": kind, "assignment": n}
+            wit = {
+                "content_type": ct_before, "text": s[:200], "text_len": len(s), "text_source": src, "content_encoding": ce, "message": kind,
+                "assignment": n, "raw_before": (m.raw_content or b"")[:80], "history": log[-8:],
+            }
             ctx.count("set_text.no_exception")
             try:
                 m.text = s
             except Exception as e:
                 ctx.violation(f"set-text-raises:{type(e).__name__}", {**wit, "exc": repr(e)[:200]}, ref.classify(ct_before, s, "set"))
                 break
+            log.append(("text", src, s[:40]))
+            prev.append(s)
             wit["content_type_after"] = m.headers.get("content-type")
             wit["raw"] = (m.raw_content or b"")[:120]
             ctx.count("get_text.roundtrip")
@@ -206,8 +311,8 @@ def run(ctx):
                 break
             if wit["content_type_after"] != ct_before:
                 ctx.count("charset_updated_by_fallback")
-            if sample is None:
-                sample = {"content_type": ct_before, "text": s[:80], "content_type_after": wit["content_type_after"], "raw": wit["raw"][:40]}
+            if sample is None or (len(log) > 2 and r.random() < 0.5):
+                sample = {"content_type": ct_before, "text": s[:80], "content_type_after": wit["content_type_after"], "raw": wit["raw"][:40], "history": log[-6:]}
         f0 = feats_all[0]
-        nontrivial = cs is not None or any(f not in ("ascii", "empty") for fs in feats_all for f in fs)
-        ctx.case((mclass, cs, sp, f0, len(feats_all), bool(ce)), nontrivial=nontrivial, sample=sample)
+        nontrivial = cs is not None or len(sources) > 1 or any(f not in ("ascii", "empty") for fs in feats_all for f in fs)
+        ctx.case((mclass, cs, sp if len(sources) == 1 else "-", f0, tuple(sources[:6]), bool(ce)), nontrivial=nontrivial, sample=sample)
